@@ -81,7 +81,7 @@ func (l *c15DropListener) Accept() (net.Conn, error) {
 func newC15HTTPBackend(idx, num int, version string, data *vBackend) *c15HTTPBackend {
 	pid := os.Getpid()
 	backend := &c15HTTPBackend{
-		host:    fmt.Sprintf("127.%d.%d.%d", 64+(pid>>16)&0x3f, (pid>>8)&0xff, 1+(pid&0xff)%254),
+		host:    fmt.Sprintf("127.%d.%d.%d", 64+(pid>>16)&0x3f, (pid>>8)&0xff, pid&0xff), // injective for pids below 2^22
 		version: version,
 		data:    data,
 		mode:    "ok",
